@@ -95,21 +95,25 @@ Fixpoint zset (l : list Z) (i : nat) (v : Z) : list Z :=
   | x :: r, S j => x :: zset r j v
   end.
 
-(* model state = slot 0 of the positions [p0; ...; p(nk-1); x];
-   kernel i:  p_i := (3 p_i + p_((i+1) mod nk) + d(key)) mod 9973   (reads the state as left by kernel i-1);
-   jitter function f (dict order) on position tgt_f:  value + d'(key) *)
+(* model state = slot 0 of the positions [p0; ...; p(nk-1); x];  kernel state = h (0 until end_warmup);
+   kernel i:  p_i := (3 p_i + p_((i+1) mod nk) + d(key) + h_i) mod 9973   (reads the state as left by kernel i-1);
+   tune of kernel i: tuning info = the current p_i;
+   end_warmup of kernel i: h_i := (sum of the tuning infos of kernel i in THIS chain's tuning history) mod 9973;
+   jitter dictionary = the list of target positions (dict order); function f:  value + d'(key) *)
+Definition rw_jitter (tbl : list (N * Z)) (tgt : list nat) (ks : list key) (ms : list Z) : list Z :=
+  fold_left (fun m kt => zset m (snd kt) (zget m (snd kt) + kv tbl (fst kt))%Z) (combine ks tgt) ms.
 Definition rw_world (nk : nat) (tgt : list nat) (tbl : list (N * Z)) (p : params) (sched : list econf) : world :=
   mkW (list Z) Z (list Z) Z Z Z
       (fun ms => ms)
-      (fun ks ms => fold_left (fun m kt => zset m (snd kt) (zget m (snd kt) + kv tbl (fst kt))%Z)
-                              (combine ks tgt) ms)
+      (rw_jitter tbl tgt)
       (fun _ _ _ => 0%Z)
       (fun _ _ s _ _ _ => s)
       (fun i k s ms _ _ =>
-         (s, zset ms i ((3 * zget ms i + zget ms (S i mod nk) + kv tbl k) mod 9973)%Z, 0%Z))
+         (s, zset ms i ((3 * zget ms i + zget ms (S i mod nk) + kv tbl k + s) mod 9973)%Z, 0%Z))
       (fun _ _ s _ _ _ => s)
-      (fun _ _ s _ _ _ _ => (s, 0%Z))
-      (fun _ _ s _ _ => s)
+      (fun i _ s ms _ _ _ => (s, zget ms i))
+      (fun i _ _ _ ti =>
+         (fold_left Z.add (map snd (filter (fun x => Nat.eqb (fst x) i) ti)) 0 mod 9973)%Z)
       (fun _ _ _ _ _ => 0%Z)
       p sched false.
 
@@ -117,7 +121,7 @@ Record scase := mkSC {
   sc_nch : nat; sc_tgt : list nat; sc_nker : nat; sc_nqg : nat; sc_chunk : nat;
   sc_sched : list (Z * Z * Z);
   sc_tbl : list (N * Z);
-  sc_ops : list (bop (list Z));                   (* the builder calls of the run, in order *)
+  sc_ops : list (bop (list Z) (list nat));        (* the builder calls of the run, in order *)
   sc_raised : bool;                               (* the real run raised *)
   sc_stored : list (list (nat * nat * list Z)) }. (* per chain: (epoch, time_in_epoch, position) *)
 
@@ -130,7 +134,7 @@ Definition entry_eqb (x y : nat * nat * list Z) : bool :=
 (* EngineBuilder(seed, nch); the recorded calls; the engine of the last build(); sample_all_epochs() *)
 Definition s_model (v : siv_variant) (bv : build_variant) (c : scase)
   : option (list (list (nat * nat * list Z))) :=
-  match b_script (list Z) tagkey (w_jitter_apply (sc_world c)) v bv (KeySeed []) (sc_nch c) (sc_ops c) with
+  match b_script (list Z) tagkey (list nat) (@length nat) (rw_jitter (sc_tbl c)) v bv (KeySeed []) (sc_nch c) (sc_ops c) with
   | None => None
   | Some ei =>
       match W_run_built (sc_world c) ei with
